@@ -85,6 +85,13 @@ def main():
                                 continue
                             objs[0].submit(init_tasks=list(objs[0].__xpm__.init_tasks) + [extra])
                             h.update(identifier=objs[0].__xpm__.identifier.all.hex(), relpath=str(objs[0].__xpm__.job.relpath))
+                            # the initialisation task given to submit() is part of what was identified: frozen from now on
+                            try:
+                                extra.v = 99
+                                h["init_task_assignment"] = "accepted"
+                            except Exception as e:
+                                h["init_task_assignment"] = f"rejected:{type(e).__name__}"
+                            h["identifier_after"] = objs[0].__xpm__.identifier.all.hex()
                     rec["histories"].append(h)
             except Exception as e:
                 rec["error"] = f"{type(e).__name__}: {e}"
